@@ -24,7 +24,7 @@ EXPLANATION = (
 )
 ASSUMPTIONS = [
     "D-eig: np.linalg.eig of an (allclose-)symmetric real matrix returns its real spectrum; max|lambda| = ||C||_2; np.any(eig < t) <=> lam_min < t",
-    "np.allclose(C, C.T) abstracted as one predicate (symmetric up to allclose)",
+    "D-allclose / D-entry: np.allclose(C, C.T, rtol, atol) (finite C) is implied by max|C - C^T| <= atol and implies max|C - C^T| <= atol + rtol*max|C|, with the tolerances the code passes (numpy defaults 1e-5 / 1e-8 when omitted); np.max(np.abs(C), initial=0) = max|C|; 0 <= max|C - C^T| <= 2 max|C|",
     "acceptance constants P=64, u=2^-53 (smallest defensible backward-error scale; recorded in contracts/gate.py)",
     "floating-point behaviour along histories: NOT proved (bounded native stand-in only)",
     "Mathlib (PosSemidef lemmas) for the exact-arithmetic preservation lemmas",
